@@ -112,7 +112,7 @@ Definition value_text (c : case) : option bytes :=
   let t := tag_value_part (value_tag c) in
   match find_first b_dollar t with
   | None => Some t
-  | Some _ => match replace_all_content b_dollar (resolve_fx (cfix c) (cfg_case c)) (Some repo_budget) O t with
+  | Some _ => match replace_all_content b_dollar (resolve (cfix c) (cfg_case c)) (Some repo_budget) O t with
               | Done x => Some x | _ => None end
   end.
 
